@@ -318,26 +318,32 @@ def finish(ctx, assumptions, functions, bounds, outside, rule):
     violations = []
     known_hits = []
     not_reproduced = []
-    seen = set()
+    bykey = {}
     for f in ctx.findings:
-        if f.key in seen:
-            continue
-        seen.add(f.key)
-        kf = [k for k in known if k.get('property') == f.prop and k.get('status') == 'known' and k.get('key') == f.key]
-        reproduced = None
-        rep_detail = None
-        if f.concrete_pred:
-            try:
-                reproduced, rep_detail = replaypreds.PREDS[f.concrete_pred](f)
-            except Exception as e:  # replay machinery failure => inconclusive
-                reproduced, rep_detail = None, 'replay failed: %r' % (e,)
-        if reproduced is True:
+        bykey.setdefault(f.key, []).append(f)
+    for key, fs in bykey.items():
+        kf = [k for k in known if k.get('property') == fs[0].prop and k.get('status') == 'known' and k.get('key') == key]
+        outcome = None
+        # several findings may share a role key: replay up to four of them (different scenarios) until one reproduces
+        for f in fs[:4]:
+            reproduced, rep_detail = None, None
+            if f.concrete_pred:
+                try:
+                    reproduced, rep_detail = replaypreds.PREDS[f.concrete_pred](f)
+                except Exception as e:  # replay machinery failure => inconclusive
+                    reproduced, rep_detail = None, 'replay failed: %r' % (e,)
+            if reproduced is True:
+                outcome = (f, rep_detail)
+                break
+            if outcome is None:
+                outcome = (f, rep_detail, False)
+        if len(outcome) == 2:
             if kf:
-                known_hits.append((f, kf[0]))
+                known_hits.append((outcome[0], kf[0]))
             else:
-                violations.append((f, rep_detail))
+                violations.append(outcome)
         else:
-            not_reproduced.append((f, rep_detail))
+            not_reproduced.append((outcome[0], outcome[1]))
     code = 0
     os.makedirs(os.path.join(VERIF, 'replays'), exist_ok=True)
     for f, kf in known_hits:
